@@ -278,4 +278,31 @@ static inline float GEO_CELL(const struct GEO* self, int i0, int i1, int i2, int
   __CPROVER_loop_invariant(rb >= ra && rb <= num_rings)                                                                \
   __CPROVER_loop_invariant(g_n3 == (((GT_DONE_A(ra, a) && GG_RB_IN) || (g_ra == ra && g_a == a && g_rb >= ra && g_rb < rb)) ? 1 : 0) && G_R3_OK) \
   __CPROVER_decreases(num_rings - rb)
+
+/* ---- apply / un-apply of block factors, efficiencies and geometric factors: the statement 'if (apply) x *= F; else x /= F;' ----
+   From the property ("applying ... and un-applying them restores the data"): apply multiplies, un-apply divides, BY THE SAME FACTOR:
+   the factor's index expressions are the same in both branches and are the ones the factor kind prescribes
+   (block: crystal / crystals per block; efficiencies: the two detectors of the pair; geometric: the pair itself in the work array). */
+#ifndef C20_N
+#define C20_N 16
+#endif
+enum { OP_NONE, OP_MUL, OP_DIV };
+int g_op, g_f0, g_f1, g_f2, g_f3, g_ops;
+#define FACT4(i0, i1, i2, i3) (i0), (i1), (i2), (i3)
+#define K_APPLY_OP(op, f) K_APPLY_OP5(op, f)
+#define K_APPLY_OP5(op, i0, i1, i2, i3) (g_op = (op), g_f0 = (i0), g_f1 = (i1), g_f2 = (i2), g_f3 = (i3), ++g_ops)
+#ifdef APPLY_KIND_block
+#define APPLY_PRE (num_axial_crystals_per_block == C20_CA && num_tangential_crystals_per_block == C20_CT) /* parametric: job constants */
+#define APPLY_F (g_f0 == ra / num_axial_crystals_per_block && g_f1 == a / num_tangential_crystals_per_block && g_f2 == rb / num_axial_crystals_per_block && g_f3 == b / num_tangential_crystals_per_block)
+#elif defined(APPLY_KIND_eff)
+#define APPLY_PRE (num_detectors_per_ring == C20_N)
+#define APPLY_F (g_f0 == ra && g_f1 == a && g_f2 == rb && g_f3 == b % num_detectors_per_ring)
+#else
+#define APPLY_PRE (num_transaxial_detectors == C20_N)
+#define APPLY_F (g_f0 == ra && g_f1 == a && g_f2 == rb && g_f3 == b % num_transaxial_detectors)
+#endif
+#define CONTRACT_K_apply_stmt                                                                                         \
+  __CPROVER_requires(ra >= 0 && ra < 100000 && a >= 0 && a < 100000 && rb >= 0 && rb < 100000 && b >= 0 && b < 100000 && APPLY_PRE && g_ops == 0) \
+  __CPROVER_assigns(g_op, g_f0, g_f1, g_f2, g_f3, g_ops)                                                               \
+  __CPROVER_ensures(g_ops == 1 && g_op == (apply ? OP_MUL : OP_DIV) && APPLY_F)
 #endif
